@@ -1,2 +1,5 @@
+pub mod exec_gen;
 pub mod inputs;
+pub mod model;
+pub mod schema_gen;
 pub mod text;
